@@ -1498,6 +1498,19 @@ _push_range_list_with_suffix(hostlist_t hl, char *pfx, char *sfx,
     }
 }
 
+/* return true if every '[' in str has its ']' and vice versa */
+static int _brackets_balanced(const char *str)
+{
+    int level = 0;
+    for (; *str != '\0'; str++) {
+        if (*str == '[')
+            level++;
+        else if (*str == ']' && --level < 0)
+            return 0;
+    }
+    return level == 0;
+}
+
 /*
  * Create a hostlist from a string with brackets '[' ']' to aid
  * detection of ranges and compressed lists
@@ -1528,6 +1541,9 @@ _hostlist_create_bracketed(const char *hostlist, char *sep, char *r_op)
 
             if ((q = strchr(p, ']'))) {
                 *q = '\0';
+                /* brackets before and after the first pair must balance too */
+                if (strchr(prefix, ']') || !_brackets_balanced(q + 1))
+                    goto error_unmatched;
                 nr = _parse_range_list(p, ranges, MAX_RANGES);
                 if (nr < 0)
                     goto error;
